@@ -14,6 +14,107 @@ from sa import AnalysisError
 from sa.astutil import dotted, src, stmt_text, params, find_stmts, calls_in, method_name, const
 
 
+def _major_factor(e):
+    """For an outer product written as `A[:, _] * B[_, :]` (any order) or numpy.outer(A, B) return (text of the factor that varies
+    slowest after .ravel(), text of the other)."""
+    if isinstance(e, ast.Call) and src(e.func) in ('numpy.outer', 'outer') and len(e.args) == 2:
+        return src(e.args[0]), src(e.args[1])
+    if isinstance(e, ast.BinOp) and isinstance(e.op, ast.Mult):
+        roles = {}
+        for side in (e.left, e.right):
+            if isinstance(side, ast.Subscript) and isinstance(side.slice, ast.Tuple) and len(side.slice.elts) == 2:
+                a, b = side.slice.elts
+                isnew = lambda x: src(x) in ('_', 'None', 'numpy.newaxis')
+                isall = lambda x: isinstance(x, ast.Slice) and x.lower is None and x.upper is None
+                if isall(a) and isnew(b):
+                    roles['major'] = src(side.value)
+                elif isnew(a) and isall(b):
+                    roles['minor'] = src(side.value)
+        if len(roles) == 2:
+            return roles['major'], roles['minor']
+    return None
+
+
+def check_tensor_points(model, rep):
+    """R09.5: TensorPoints enumerates its points as (point of factor 1, point of factor 2) with factor 1 varying slowest (flat index
+    i1 * npoints2 + i2).  coords, weights, tri and hull are separate members that each build this enumeration themselves: they must
+    agree on which factor is the slow one, otherwise weights are paired with the coordinates of other points."""
+    c = model.cls('points:TensorPoints')
+    found = {}
+    # coords: the block that receives points1.coords broadcast along axis 1 makes points1 the slow factor
+    co = c.members['coords'].func
+    for s_ in ast.walk(co.node):
+        if isinstance(s_, ast.Assign) and isinstance(s_.targets[0], ast.Subscript) and isinstance(s_.value, ast.Subscript) and isinstance(s_.value.slice, ast.Tuple) and len(s_.value.slice.elts) == 3:
+            a, b, _c = s_.value.slice.elts
+            isnew = lambda x: src(x) in ('_', 'None', 'numpy.newaxis')
+            owner = src(s_.value.value).replace('.coords', '')
+            if isnew(b) and not isnew(a):
+                found.setdefault('coords', {})['major'] = owner
+            elif isnew(a) and not isnew(b):
+                found.setdefault('coords', {})['minor'] = owner
+    reshaped = any(isinstance(x, ast.Call) and method_name(x) == 'reshape' and src(x.args[0]) == 'self.npoints' for x in ast.walk(co.node) if isinstance(x, ast.Call) and x.args)
+    if set(found.get('coords', {})) != {'major', 'minor'} or not reshaped:
+        raise AnalysisError('TensorPoints.coords: the two broadcast assignments and the row-major reshape were not recognised')
+    we = c.members['weights'].func
+    mf = None
+    for x in ast.walk(we.node):
+        r = _major_factor(x) if isinstance(x, (ast.BinOp, ast.Call)) else None
+        if r:
+            mf = r
+            break
+    if mf is None or not any(isinstance(x, ast.Call) and method_name(x) == 'ravel' for x in ast.walk(we.node)):
+        raise AnalysisError('TensorPoints.weights: outer product + ravel not recognised')
+    found['weights'] = {'major': mf[0].replace('.weights', ''), 'minor': mf[1].replace('.weights', '')}
+    # tri/hull: `<factor a index> * self.<factor b>.npoints + <factor b index>` makes a the slow factor
+    for name in ('tri', 'hull'):
+        fn = c.members[name].func
+        for x in ast.walk(fn.node):
+            if isinstance(x, ast.BinOp) and isinstance(x.op, ast.Add) and isinstance(x.left, ast.BinOp) and isinstance(x.left.op, ast.Mult) and src(x.left.right).endswith('.npoints'):
+                stride_owner = src(x.left.right)[:-len('.npoints')]
+                major = src(x.left.left.value if isinstance(x.left.left, ast.Subscript) else x.left.left).rsplit('.', 1)[0]
+                minor = src(x.right.value if isinstance(x.right, ast.Subscript) else x.right).rsplit('.', 1)[0]
+                ok = stride_owner == minor
+                found.setdefault(name, {'major': major, 'minor': minor})
+                if not ok:
+                    rep.ob('R09.5', fn.key, fn.where(x), False, f'`{src(x)[:70]}` strides the index of {major} by the number of points of {stride_owner}, but adds an index of {minor}', statement=f'tensor-order {name} stride')
+    ref = found['coords']
+    for name, roles in found.items():
+        ok = roles == ref
+        fn = c.members[name].func
+        rep.ob('R09.5', fn.key, fn.where(), ok, f'TensorPoints.{name} enumerates the points with {roles["major"]} varying slowest, as coords does' if ok else
+               f'TensorPoints.{name} enumerates the points with {roles["major"]} varying slowest, coords with {ref["major"]}: the members are paired by position, so {name} of one point end up with the coordinates of another',
+               statement=f'tensor-order {name}')
+    if len(found) < 3:
+        raise AnalysisError('TensorPoints: fewer than three members with a recognisable point order')
+
+
+def check_degree_passthrough(model, rep):
+    """R09.6: a reference that builds its points from the points of sub-references (children, tensor factors, mosaic) hands the
+    requested degree on unchanged - the exactness of a Gauss rule is per sub-reference.  The one licensed change is the halving of the
+    bezier degree for children (uniform point density); any arithmetic on `degree` must therefore be under a test for that scheme."""
+    mod = model.module('element')
+    n = 0
+    from sa.guards import enclosing_conditions
+    for f in model.functions.values():
+        if f.module is not mod or f.name != 'getpoints' or isinstance(f.node, ast.Lambda):
+            continue
+        n += 1
+        conds = enclosing_conditions(f.node)
+        for s_ in ast.walk(f.node):
+            if isinstance(s_, (ast.Assign, ast.AugAssign)) and any(isinstance(t, ast.Name) and t.id == 'degree' for t in (s_.targets if isinstance(s_, ast.Assign) else [s_.target])):
+                arith = isinstance(s_, ast.AugAssign) or any(isinstance(x, ast.BinOp) for x in ast.walk(s_.value))
+                if not arith:
+                    continue
+                under = conds.get(id(s_), ())
+                ok = any("ischeme == 'bezier'" in t.replace('"', "'") and v for t, v in under)
+                rep.ob('R09.6', f.key, f.where(s_), ok, f'`{stmt_text(s_)[:50]}` changes the degree only for the bezier scheme' if ok else
+                       f'`{stmt_text(s_)[:50]}` changes the requested degree for schemes other than bezier: the sub-references get a Gauss rule of lower degree than requested, so polynomials of the '
+                       'requested degree are no longer integrated exactly (the weights still sum to the volume)', statement='degree-unchanged')
+    rep.ob('R09.6', 'element:getpoints', mod.relpath + ':1', True, f'{n} getpoints implementations inspected', statement='getpoints-inspected')
+    if n < 6:
+        raise AnalysisError(f'only {n} getpoints implementations found in element.py')
+
+
 def run(model, rep, tier):
     rep.explanation = (
         'R09.1 sibling agreement inside sample._Mul (getindex, get_evaluable_indices, get_evaluable_weights, get_lower_args all use divmod(ielem, self._sample2.nelems); point indices are '
@@ -24,6 +125,8 @@ def run(model, rep, tier):
     rep.rule('R09.1', 'sibling members of _Mul/_Add use one decomposition of element and point indices')
     rep.rule('R09.2', '_Integral/_ConcatenatePoints use one loop index for weights, lower args and the reduction')
     rep.rule('R09.3', 'every concrete sample defines the four accessors')
+    rep.rule('R09.5', 'TensorPoints: coords, weights, tri and hull agree on the slow factor of the point enumeration')
+    rep.rule('R09.6', 'getpoints hands the requested degree to sub-references unchanged (bezier halving only under its scheme test)')
     rep.rule('R09.4', 'transformed points scale weights by the absolute determinant')
     M = model.cls('sample:_Mul')
     for name in ('getindex', 'get_evaluable_indices', 'get_evaluable_weights', 'get_lower_args'):
@@ -158,5 +261,7 @@ def run(model, rep, tier):
             rep.info(f'R09.3 {c.key}: {missing} are not implemented; zip()/basis() of such a sample raise NotImplementedError (a refusal, not a wrong value)')
     if n < 6:
         raise AnalysisError(f'only {n} concrete sample classes found')
+    check_tensor_points(model, rep)
+    check_degree_passthrough(model, rep)
     rep.require('R09.1', 20)
     rep.require('R09.2', 5)
